@@ -29,6 +29,9 @@ def main():
     args = ap.parse_args()
     seed = int(os.environ.get('VERIF_SEED', '0') or 0)
     mod = importlib.import_module('props.' + args.prop)
+    for ext_name in filter(None, os.environ.get('VERIF_EXT', '').split(',')):     # development aid: attach a not-yet-registered extension
+        ext = importlib.import_module('props.' + ext_name)
+        fw.attach_extension(vars(mod), ext)
 
     budget = int(os.environ.get('VERIF_BUDGET_S', '1500' if args.tier == 'quick' else '7200'))
 
